@@ -28,6 +28,8 @@
 (declare-fun sub.cache.disk.entry.value (Int) Int)
 (declare-fun subinv.cache.disk.entry.value (Int) Int)
 (define-fun itemOf ((x Int)) Int (sub.cache.disk.entry.value x))
+; name of an open file
+(declare-fun fileName (Int) GStr)
 ; eviction queue (ghost bag of entries handed to the remover)
 (declare-fun qadd (GSeq Int) GSeq)
 
